@@ -59,6 +59,10 @@ CHECKS = {
          "Source texts (all repo .lisp files, random token trees with comments/blank lines/tabs/CRLF in every gap incl. inside prefix forms and before closing brackets, every literal spelling and bracket kind, 16 token-level mutations) are formatted under the CLI default config, random indent/blank-line/rules configs, compact+strip, and strip or compact alone; strict parses of input and output must be identical node by node, an independently read token tree must match in spellings and bracket kinds, every comment must survive in order anchored to the same tree path, Format(Format(x)) must equal Format(x) byte for byte, and rejected input must yield an error and zero bytes.",
          "The documented re-sugaring of #' / #^ and hoisting of comments out of a prefix gap are treated as allowed normalisations; layout is judged only through idempotence; violations are shrunk and keyed by the minimised input's class (notes/NOTES-C16.md).",
          "DESIGN.md 4/C16"),
+ "C18": ("exploration", "reference-model runtime monitor: the model records the failing syntax node and the chain of active calls, the renderer records every node's span; compared with (*LVal).Source() and CallStack() under elimination off (exact) and on (subsequence justified by a tail-elision hook)",
+         "Failing programs (generated programs with a buried ill-typed / wrong-arity / unbound / error form at every position class the generator reaches, macro templates with the failing form written in the template, spliced from the call site, or built without position, and tail loops whose last turn makes a failing tail call) are rendered with random layout; the real error's location must be the span of the form the model identifies for the judged classes, and the stack trace, innermost first, must equal the model's active-call chain with call-site positions when elimination is off, and with elimination on be that trace minus frames a tail-elision hook saw collapsed.",
+         "Function calls are active from application, operators while their sub-forms run, macros only during expansion; callee call sites of calls made by builtins on the program's behalf are not compared; error classes the statement does not name are only required to lie inside the source; a function bound under several global names may be reported under any of them.",
+         "DESIGN.md 4/C18"),
  "C19": ("exploration", "differential runtime monitor: the real linter (the three configurations cmd/lint.go can produce) against the real evaluator's argument binder on generated one-call sources; largely exhaustive",
          "Exhaustive: every name in the default registry enumerated at run time (135 core names + 112 stdlib functions) x k = 0..max+2 arguments (bare and lisp:-qualified, keyword tails for &key), all 72 defun formals lists x k = 0..6, and 31 shadowing context shapes x 9 builtin names x 6 shadow values x k = 0..4; plus sampled variants under wrappers. A call is 'reported' when builtin-arity / if-arity / user-arity flags the call form; it 'fails binding' when evaluation ends in one of the binder's errors with the callee on top of the error's call stack; which binding a call reaches is decided by evaluating (probe in the shadow body, control run).",
          "Binding failure is recognised by the binder's message classes and the error's call stack; &key signatures and stdlib names are judged in one direction only; local functions that fail binding owe no report (notes/NOTES-C19.md).",
